@@ -558,7 +558,9 @@ func (f *Fam) Gen(r *rand.Rand, i int) string {
 	case 4:
 		f.gen.phase = 1
 		f.gen.blocks++
-		if strings.HasPrefix(f.Profile, "replica") {
+		if r.Intn(12) == 0 {
+			f.gen.phase = 6 // between two blocks: store queries through the ABCI interface
+		} else if strings.HasPrefix(f.Profile, "replica") {
 			// between two blocks: export the state and restart two fresh instances from it - mostly when the import
 			// will accept the export (genesis validation refuses unstaked records, jailed staked validators and
 			// stakes below the default minimum) and more than one validator has a previous-state power
@@ -576,6 +578,9 @@ func (f *Fam) Gen(r *rand.Rand, i int) string {
 	case 5:
 		f.gen.phase = 1
 		return "mon.export"
+	case 6:
+		f.gen.phase = 1
+		return "mon.query"
 	}
 	return f.genInit(r)
 }
